@@ -5,7 +5,7 @@ cd "$(dirname "$0")/.."
 for SEED in "$@"; do
   for ID in C01 C02 C03 C04 C05 C06 C07 C08 C09 C10 C11 C12 C13 C14 C15 C16 C17 C18 C19 C20; do
     OUT=$(VERIF_SEED=$SEED ./check $ID --tier $TIER 2>&1); RC=$?
-    echo "seed=$SEED $ID rc=$RC $(echo "$OUT" | grep -E "^$ID tier" | cut -c1-90)"
-    if [ $RC -ne 0 ]; then echo "$OUT" | grep -E "VIOLATION|HARNESS|^  \[" | cut -c1-300; fi
+    echo "seed=$SEED $ID rc=$RC $(printf "%s\n" "$OUT" | grep -E "^$ID tier" | cut -c1-90)"
+    if [ $RC -ne 0 ]; then printf "%s\n" "$OUT" | grep -E "VIOLATION|HARNESS|^  \[" | cut -c1-300; fi
   done
 done
